@@ -71,5 +71,16 @@ Definition run_quad_edge (l : list Z) : list Z :=
   | _ => [-3]
   end.
 
+(* CubicEdge: args x0 y0 .. x3 y3 (bit patterns) shift -> n then n * (x dx first_y last_y winding); -1 = a panic *)
+Definition run_cubic_edge (l : list Z) : list Z :=
+  match l with
+  | [a; b; c; d; e; f; g; h; sh] =>
+      match CurveEdge.cubic_edge_lines (pz a b) (pz c d) (pz e f) (pz g h) sh with
+      | None => [-1]
+      | Some ls => Z.of_nat (length ls) :: flat_map (fun e => [e_x e; e_dx e; e_first_y e; e_last_y e; e_winding e]) ls
+      end
+  | _ => [-3]
+  end.
+
 (* fill_px is judged by the independent geometric oracle in the harness: not modelled here *)
 Definition run_fill_px (l : list Z) : list Z := [-9].
